@@ -541,6 +541,9 @@ func init() {
 		c.Rule = "state = canonical snapshot (objects + pending uploads with their parts; upload ids replaced by rank); transition = initiate / upload-part / complete(part list: all, subsets, out-of-order, never-uploaded numbers 0/-1/3/10001, stale ETag, foreign ETag) / abort / plain put, checked against the A.4 model; in every new state GET per key, ListParts per open and closed upload, ListMultipartUploads; distinct_nontrivial = distinct canonical states"
 		c.Assumptions = append(c.Assumptions, "multipart ETag is required on the Complete result only", "empty part lists and duplicate part numbers are outside the statement and not generated")
 		runMP(c, "C06")
+		if c.Replay == nil {
+			bigComplete(c)
+		}
 	}
 }
 
